@@ -355,9 +355,15 @@ class Struct(metaclass=MetaStruct):
                 for field in self._d_fields
             }
         else:
-            for field in self._fields:
-                if field.name in value:
-                    field.__set__(self, value[field.name])
+            # a refused field must not leave the earlier ones modified
+            saved = self._buffer.to_bytearray(self._offset, self._size)
+            try:
+                for field in self._fields:
+                    if field.name in value:
+                        field.__set__(self, value[field.name])
+            except Exception:
+                self._buffer.update_from_buffer(self._offset, saved)
+                raise
 
     def __init__(
         self, *args, _context=None, _buffer=None, _offset=None, **kwargs
